@@ -24,7 +24,7 @@ import (
 	"github.com/cosi-project/runtime/api/v1alpha1"
 	"github.com/cosi-project/runtime/pkg/resource"
 	"github.com/cosi-project/runtime/pkg/resource/protobuf"
-	"github.com/cosi-project/runtime/pkg/state/impl/store/compression"
+	"github.com/cosi-project/runtime/pkg/state/impl/store"
 
 	"verif/harness/res"
 	"verif/harness/vk"
@@ -48,9 +48,14 @@ func (s *vkSink) Count(name string, n int)                    { s.cnt[name] += n
 
 // findings which are already reported by TestC18; under native fuzzing they are logged instead of stopping the fuzzer at once.
 var nativeFuzzTolerated = map[string]bool{
-	"parse-version-accepts-negative":                true,
-	"yaml-invalid-utf8-silently-changed":            true,
-	"yaml-resource-null-document-yields-no-resource": true,
+	"parse-version-accepts-negative":                    true,
+	"yaml-invalid-utf8-silently-changed":                true,
+	"yaml-resource-null-document-yields-no-resource":    true,
+	"yaml-tab-led-multiline-string-unreadable":          true,
+	"yaml-space-led-multiline-list-item-corrupted":      true,
+	"yaml-spec-tab-led-multiline-string-unreadable":     true,
+	"yaml-spec-space-led-multiline-list-item-corrupted": true,
+	"version-next-beyond-int64-text-not-parseable":      true,
 }
 
 type tSink struct{ t *testing.T }
@@ -207,11 +212,11 @@ func bodyYAMLMeta(s sink, data []byte) bool {
 		s.Violation("accepted-garbage-reencode-panicked", detail)
 	case err != nil:
 		detail["error"] = err.Error()
-		s.Violation(over("accepted-garbage-does-not-roundtrip", car), detail)
+		s.Violation(yamlCauseSig(over("accepted-garbage-does-not-roundtrip", car), err, "", car), detail)
 	default:
 		if d := mdDiff(&md, &md2, true); d != "" {
 			detail["differs"] = d
-			s.Violation(over("accepted-garbage-does-not-roundtrip", car), detail)
+			s.Violation(yamlCauseSig(over("accepted-garbage-does-not-roundtrip", car), nil, d, car), detail)
 		}
 	}
 
@@ -290,11 +295,11 @@ func bodyYAMLRes(s sink, data []byte) bool {
 		s.Violation("accepted-garbage-reencode-panicked", detail)
 	case err != nil:
 		detail["error"] = err.Error()
-		s.Violation(over("accepted-garbage-does-not-roundtrip", r), detail)
+		s.Violation(yamlCauseSig(over("accepted-garbage-does-not-roundtrip", r), err, "", r), detail)
 	default:
 		if d := diffLoose(r, r2, true); d != "" {
 			detail["differs"], detail["got"] = d, describeRes(r2)
-			s.Violation(over("accepted-garbage-does-not-roundtrip", r), detail)
+			s.Violation(yamlCauseSig(over("accepted-garbage-does-not-roundtrip", r), nil, d, r), detail)
 		}
 	}
 
@@ -573,7 +578,9 @@ func hostileMsg(g *gen) *v1alpha1.Resource {
 	return pm
 }
 
-var baseCodec = &codec{name: "pb", m: buildCodecs(sharedGuard, keyGood)[0].m}
+var hostileSampled atomic.Int64
+
+var baseCodec = &codec{name: "pb", m: store.ProtobufMarshaler{}}
 
 func hostileMessage(c *vk.C, i int, cnt counts) {
 	g := newGen(c.Rand(uint64(3_000_000 + i)))
@@ -589,7 +596,7 @@ func hostileMessage(c *vk.C, i int, cnt counts) {
 		cnt["decoder_inputs_accepted"]++
 	}
 
-	if i == 0 {
+	if i < 40 && acc && hostileSampled.Add(1) == 1 {
 		c.Sample(map[string]any{"mode": "hostile-message", "message": clipText(fmt.Sprint(pm)), "accepted": acc})
 	}
 
@@ -833,6 +840,10 @@ func buildSeeds(rng *rand.Rand, codecs []*codec, n int) *seedSet {
 			sel := rng.IntN(len(codecs))
 			if i < 6 {
 				sel = k
+			} else if k%3 != 0 { // two thirds of the seeds come from stackings without encryption (mutants of ciphertext are always rejected)
+				for codecs[sel].hasEnc() {
+					sel = rng.IntN(len(codecs))
+				}
 			}
 
 			if b, err := codecs[sel].m.MarshalResource(gc.r); err == nil && len(b) <= maxInput/2 {
@@ -1052,7 +1063,7 @@ func fuzzCodecs() []*codec {
 	fuzzCodecsOnce.Do(func() {
 		registerAll()
 
-		fuzzCodecsVal = buildCodecs(&guardZ{inner: compression.ZStd()}, keyGood)
+		fuzzCodecsVal = buildCodecs(guardedPool(), keyGood)
 	})
 
 	return fuzzCodecsVal
